@@ -50,7 +50,7 @@ var rdDefs = []string{
 	"grd = (k) -> {\ni = 0\nwhile i < k {\nyield rd()\ni = i + 1\n}\n}",
 }
 
-const lineAlphabet = "abcxyz019 \t;{}[]\"\\<>:,.#-+=()"
+const lineAlphabet = "abcxyz019 \t;{}[]\"\\<>:,.#-+=()%dsv"
 
 func drawLine(tp *tape.Tape) []byte {
 	var n int
@@ -511,7 +511,7 @@ func drawValueExpr(tp *tape.Tape, d int) string {
 	case 4:
 		return []string{"true", "false"}[tp.Draw(2)]
 	case 5:
-		return "\"" + []string{"", "a", "hello world", "x;y", "12", "3.5", "q{"}[tp.Draw(7)] + "\""
+		return "\"" + []string{"", "a", "hello world", "x;y", "12", "3.5", "q{", "100%", "%d %s", "%%", "%v%"}[tp.Draw(11)] + "\""
 	case 6:
 		if d > 0 {
 			n := tp.Draw(4)
